@@ -945,7 +945,7 @@ class Transition(Window):
 
     width: int = field(default=2, init=False)
     stride: int = field(default=1, init=False)
-    start: int = field(default=1, init=False)
+    start: Optional[int] = field(default=None, init=False)
 
 
 
